@@ -17,6 +17,7 @@ type Clause struct {
 }
 
 type LoopSpec struct {
+	Decreases  *Clause
 	Invariants []Clause
 	Uses       []Clause // lemma uses at loop head (after assuming the invariant)
 }
@@ -49,6 +50,7 @@ type FuncContract struct {
 	Expect   string // "fail": canary whose obligations must not all discharge
 	Math     bool   // treat 64-bit arithmetic as mathematical (reported as assumption)
 	Fresh    bool   // result is freshly allocated
+	Deterministic bool // result is a function of the arguments only
 	ReadsAll bool
 	Alias    string
 	Havoc    []string
@@ -90,7 +92,7 @@ var clauseKeywords = map[string]bool{"func": true, "iface": true, "requires": tr
 	"nopanic": true, "inline": true, "pure": true, "panics": true, "loop": true, "prop": true, "pred": true,
 	"uf": true, "at": true, "assumed": true, "trusted": true, "expect": true, "math": true, "fresh": true,
 	"axiom": true, "ghost": true, "havoc": true, "alias": true, "end": true,
-	"ghostfield": true, "define": true, "view": true, "ghostscalar": true}
+	"ghostfield": true, "define": true, "view": true, "ghostscalar": true, "deterministic": true}
 
 var labelRe = regexp.MustCompile(`^(requires|ensures|invariant)\[([A-Za-z0-9_.:-]+)\]`)
 
@@ -236,6 +238,10 @@ func (db *ContractDB) parseContractFile(path, pkgPath string, prefix string, ass
 				cur.Math = true
 			case "fresh":
 				cur.Fresh = true
+			case "deterministic":
+				cur.Deterministic = true
+				cur.Pure = true
+				cur.HasMod = true
 			case "alias":
 				cur.Alias = rest
 			case "expect":
@@ -286,6 +292,8 @@ func (db *ContractDB) parseContractFile(path, pkgPath string, prefix string, ass
 					ls.Invariants = append(ls.Invariants, Clause{strings.TrimSpace(fs[2]), lab, src})
 				case "use":
 					ls.Uses = append(ls.Uses, Clause{strings.TrimSpace(fs[2]), lab, src})
+				case "decreases":
+					ls.Decreases = &Clause{strings.TrimSpace(fs[2]), lab, src}
 				default:
 					return fmt.Errorf("%s: bad loop clause kind %q", src, k2)
 				}
